@@ -12,6 +12,29 @@ _ROOT = os.path.join(VERIF, '.cache')
 CACHE = _ROOT if os.path.realpath(REPO) == '/repo' else os.path.join(_ROOT, 'tree_' + hashlib.sha1(os.path.realpath(REPO).encode()).hexdigest()[:10])
 ENV = dict(os.environ, CARGO_NET_OFFLINE='true')
 
+
+def _housekeeping():
+    """Disk is limited: build caches of OTHER trees (seeded-change / development runs) and scratch dirs of aborted runs are
+    dropped once they have not been touched for 3 hours.  The cache of /repo itself is never dropped."""
+    import time
+    now = time.time()
+    try:
+        for d in os.listdir(_ROOT):
+            p = os.path.join(_ROOT, d)
+            if (d.startswith('tree_') or d.startswith('run_')) and p != CACHE and os.path.isdir(p):
+                try:
+                    if now - os.path.getmtime(p) > 3 * 3600:
+                        shutil.rmtree(p, ignore_errors=True)
+                except OSError:
+                    pass
+        if CACHE != _ROOT and os.path.isdir(CACHE):
+            os.utime(CACHE, None)
+    except OSError:
+        pass
+
+
+_housekeeping()
+
 _built = {}
 
 
